@@ -301,7 +301,7 @@ func parseContractFile(path, pkgDir string, src []byte) (*ContractFile, error) {
 			for _, fl := range strings.Fields(rest) {
 				cur.Flags[fl] = true
 			}
-		case "assumed", "nopanic", "pure", "inline", "fresh", "panics", "noframe", "noreturn", "may-panic", "nilcheck", "counted", "nonblocking-sends", "bounded", "bodies", "thorough-only":
+		case "assumed", "nopanic", "pure", "inline", "fresh", "panics", "noframe", "noreturn", "may-panic", "nilcheck", "counted", "nonblocking-sends", "bounded", "bodies", "thorough-only", "prune-paths":
 			cur.Flags[kw] = true
 			if rest != "" {
 				cur.Notes = append(cur.Notes, kw+": "+rest)
